@@ -324,7 +324,9 @@ Section Curve.
   Variable n : Z.                               (* G.order() *)
 
   (* Public_key.verifies(hash, Signature(r, s)) for the public point Q.
-     INFINITY.x() is None and `None % n` raises TypeError. *)
+     `if xy == ellipticcurve.INFINITY: return False` (generated
+     verifies_infinity_result) precedes xy.x(), so the None x-coordinate of
+     INFINITY is never used. *)
   Definition verifies (Q : point) (hash r s : Z) : result bool :=
     if verifies_reject_r r n then Ok false else
     if verifies_reject_s s n then Ok false else
@@ -333,7 +335,7 @@ Section Curve.
     let u2 := verifies_u2 r c n in
     let xy := padd (smul u1 G) (smul u2 Q) in
     match xcoord xy with
-    | None => Err EType
+    | None => Ok verifies_infinity_result
     | Some x => Ok (verifies_result (verifies_v x n) r)
     end.
 
